@@ -56,7 +56,7 @@ BASE = {"g96": 28, "xyz": 22, "lammpstrj": 12, "trr": 16, "gmxframe": 14,
 
 def plan(tier, seed):
     rng = random.Random(f"C19-{seed}")
-    njobs, scale = (32, 4) if tier == "quick" else (192, 20)
+    njobs, scale = (32, 4) if tier == "quick" else (192, 12)
     return [{"seed": rng.randrange(2 ** 31), "scale": scale,
              "hashseed": rng.randrange(1000)} for _ in range(njobs)]
 
@@ -148,35 +148,9 @@ def call(rec, mech, fn, *a, **lit):
 
 # ------------------------------------------------------------- generators
 
-def natoms(rng, lo=1):
-    r = rng.random()
-    if r < 0.35:
-        return int(rng.integers(lo, lo + 3))
-    if r < 0.85:
-        return int(rng.integers(lo, 25))
-    return int(rng.integers(25, 201))
-
-
-def dec9(rng, shape, cls):
-    """Exact 9-decimal numbers (as the nearest doubles), distinct, non-zero."""
-    lo, hi = {"small": (-10, 10), "mid": (-1000, 1000),
-              "edge": (-9999, 99999), "vedge": (-9999, 9999)}[cls]
-    k = rng.integers(lo * 10 ** 9 + 1, hi * 10 ** 9, size=shape)
-    k[k == 0] = 7
-    return k / 1e9
-
-
-def reals(rng, shape, cls):
-    np = _np()
-    lim = {"small": 10.0, "mid": 1000.0, "edge": 9999.0}[cls]
-    x = rng.uniform(-lim, lim, size=shape)
-    if cls == "small":
-        x *= 10.0 ** rng.integers(-4, 1, size=shape)
-    return np.where(x == 0, 0.5, x)
-
-
-WORDS = ["SOL", "H1", "OW", "HW1", "CA", "LIG", "MOL", "NA", "CL", "C12",
-         "O", "H", "N", "Ar", "Zn", "X", "Cu2", "HYDRO"]
+from vf.oracles.gen19 import (cp2k_case, dec9, lammps_case,  # noqa: E402
+                              mdp_case, natoms, reals, trr_frames,
+                              WORDS, CP_PARAMS)
 
 
 def text_of(path):
@@ -549,35 +523,10 @@ class _Crit(logging.Handler):
         self.msgs.append(record.getMessage())
 
 
-def trr_frames(rng, n, nfr, always=("box", "x"), lim=9000.0):
-    np = _np()
-
-    def f32(shape, scale):
-        x = rng.uniform(-scale, scale, size=shape).astype(np.float32)
-        x[x == 0] = np.float32(0.25)
-        return x.astype(float)
-    out = []
-    for j in range(nfr):
-        fr = {"natoms": n, "step": int(rng.integers(0, 10 ** 6)),
-              "time": float(np.float32(rng.uniform(0, 500))),
-              "lam": float(np.float32(rng.random()))}
-        for key, shape, scale in (("box", (3, 3), 30.0), ("vir", (3, 3), 1e3),
-                                  ("pres", (3, 3), 1e3), ("x", (n, 3), lim),
-                                  ("v", (n, 3), 5.0), ("f", (n, 3), 2e3)):
-            p = 1.0 if key in always else (0.25 if key in ("vir", "pres")
-                                           else 0.6)
-            fr[key] = f32(shape, scale) if rng.random() < p else None
-        if fr["box"] is not None:
-            fr["box"] = np.abs(fr["box"])
-        out.append(fr)
-    return out
-
-
 VARIANTS = [(">", False), (">", True), ("<", False), ("<", True)]
 
 
 def fam_trr(rec, rng, d, i):
-    np = _np()
     from infretis.classes.engines import gromacs as G
     from vf.oracles import codecs19 as O
     n, nfr = natoms(rng), int(rng.integers(1, 5))
@@ -672,7 +621,6 @@ def fam_trr(rec, rng, d, i):
 
 def fam_gmxframe(rec, rng, d, i):
     """GromacsEngine._extract_frame: frame k of a .trr as a .g96."""
-    np = _np()
     from infretis.classes.engines import gromacs as G
     from vf.oracles import codecs19 as O
     n, nfr = natoms(rng), int(rng.integers(1, 5))
@@ -729,51 +677,14 @@ def fam_gmxframe(rec, rng, d, i):
 
 # ------------------------------------------------------------------ mdp
 
-MDP_KEYS = ["integrator", "nsteps", "dt", "nstxout", "nstvout", "nstfout",
-            "nstlog", "nstcalcenergy", "nstenergy", "gen_vel", "ref-t",
-            "tc-grps", "tau_t", "tcoupl", "pbc", "rvdw", "rcoulomb", "define",
-            "cutoff-scheme", "continuation", "gen_seed", "nstcomm", "rlist",
-            "coulombtype", "vdwtype", "constraints", "comm-mode"]
-MDP_VALUES = ["md-vv", "no", "yes", "10", "0", "0.002", "300 300", "xyz",
-              "System", "Verlet", "-1", "1.2", "-DPOSRES", "h-bonds",
-              "Protein Non-Protein", "2.5e-4"]
-
-
 def fam_mdp(rec, rng, d, i):
     from infretis.classes.engines.enginebase import EngineBase
     from vf.oracles import templates19 as T
-    keys = [str(k) for k in rng.choice(MDP_KEYS, size=int(rng.integers(2, 12)),
-                                       replace=False)]
-    lines = []
-    for k in keys:
-        reps = 2 if rng.random() < 0.06 else 1
-        for _ in range(reps):
-            ws1 = str(rng.choice(["", " ", "   ", "\t", "          "]))
-            ws2 = str(rng.choice(["", " ", "  ", "\t"]))
-            val = str(rng.choice(MDP_VALUES))
-            if k == "define" and rng.random() < 0.5:
-                val = "-DPOSRES=1 -DFLEX"      # value holding the delimiter
-            tail = " ; note" if rng.random() < 0.15 else ""
-            lines.append((str(rng.choice(["", "", " "])) + k + ws1 + "=" + ws2
-                          + val + tail))
-        r = rng.random()
-        if r < 0.15:
-            lines.append("")
-        elif r < 0.3:
-            lines.append("; " + str(rng.choice(
-                ["a comment", f"{rng.choice(MDP_KEYS)} = 5", "x = y"])))
-    no_newline = bool(rng.random() < 0.12 and lines[-1] != "")
-    text = "\n".join(lines) + ("" if no_newline else "\n")
-    present = [k for k in keys if rng.random() < 0.4]
-    absent = [str(k) for k in rng.choice(MDP_KEYS, size=int(rng.integers(0, 4)),
-                                         replace=False) if k not in keys]
-    if not present and not absent:
-        present = [keys[0]]
-    settings = {}
-    for k in present + absent:
-        v = [int(rng.integers(0, 5000)), float(rng.integers(1, 999)) / 1000,
-             "no", "300 300", "md-vv"][int(rng.integers(0, 5))]
-        settings[k] = v
+    case = mdp_case(rng)
+    text, lines, keys, settings = (case[k] for k in (
+        "text", "lines", "keys", "settings"))
+    present, absent, no_newline = (case[k] for k in (
+        "present", "absent", "no_newline"))
     src, out, out2 = (os.path.join(d, f"m{i}{s}.mdp") for s in "abc")
     rec.sig("mdp", text + repr(sorted(settings.items(), key=str)),
             len(present) + len(absent) >= 1 and len(keys) > len(present))
@@ -841,140 +752,12 @@ def fam_mdp(rec, rng, d, i):
 
 # ----------------------------------------------------------------- CP2K
 
-CP_TITLES = ["GLOBAL", "MOTION", "MD", "PRINT", "RESTART", "EACH", "SUBSYS",
-             "FORCE_EVAL", "KIND", "CELL", "TOPOLOGY", "DFT", "SCF", "MM",
-             "FORCEFIELD", "VELOCITY", "COORD", "LANGEVIN", "TRAJECTORY",
-             "VELOCITIES", "XC", "QS", "MGRID", "POISSON", "EWALD", "THERMO"]
-CP_KEYS = ["STEPS", "TIMESTEP", "TEMPERATURE", "ENSEMBLE", "PROJECT", "MD",
-           "RUN_TYPE", "BACKUP_COPIES", "FILENAME", "ABC", "MASS", "GAMMA",
-           "BASIS_SET", "CUTOFF", "EPS_SCF", "COORD_FILE_NAME", "METHOD"]
-CP_VALS = ["100", "0.5", "300", "NVE", "MD", "LOW", "RESTART", "30.0 30.0 30.0",
-           "DZVP-GTH", "./conf.xyz", "1.0E-6", "[angstrom] 3.0", "XYZ"]
-CP_PARAMS = ["H", "O", "C", "OFF", "ON", "MEDIUM", "T"]
-
-
-def _cp_tree(rng, depth, titles):
-    """Random forest as nested dicts; titles unique among siblings except
-    for deliberate same-titled groups (2 = addressable pair, 3 = never)."""
-    nodes = []
-    count = int(rng.integers(1, 4)) if depth else int(rng.integers(1, 5))
-    for title in rng.choice(titles, size=count, replace=False):
-        group = 1
-        if depth and rng.random() < 0.15:
-            group = 2 if rng.random() < 0.7 else 3
-        pars = [str(p) for p in rng.choice(CP_PARAMS, size=group,
-                                           replace=False)]
-        for g in range(group):
-            node = {"title": str(title), "group": group, "kids": [],
-                    "params": [pars[g]] if group > 1 else (
-                        [str(rng.choice(CP_PARAMS))] if rng.random() < 0.2
-                        else []), "table": rng.random() < 0.1}
-            if node["table"]:
-                node["lines"] = [f"{rng.choice(['H', 'O'])} {j}.5 0.0 1.0"
-                                 for j in range(int(rng.integers(1, 4)))]
-            else:
-                ks = rng.choice(CP_KEYS, size=int(rng.integers(0, 5)),
-                                replace=False)
-                node["lines"] = [f"{k} {rng.choice(CP_VALS)}" if
-                                 rng.random() < 0.9 else str(k) for k in ks]
-            if depth < 3 and rng.random() < 0.65:
-                node["kids"] = _cp_tree(rng, depth + 1, titles)
-            nodes.append(node)
-    return nodes
-
-
-def _cp_render(rng, nodes, level=0):
-    out = []
-    for nd in nodes:
-        ind = " " * int(rng.integers(0, 3) + 2 * level)
-        t = nd["title"] if rng.random() < 0.8 else nd["title"].lower()
-        out.append(f"{ind}&{t}" + "".join(" " + p for p in nd["params"]))
-        for ln in nd["lines"]:
-            out.append(ind + "  " + ln.replace(" ", str(rng.choice(
-                [" ", "  ", "\t"])), 1))
-            if rng.random() < 0.05:
-                out.append(ind + "  # a comment line")
-        out += _cp_render(rng, nd["kids"], level + 1)
-        out.append(f"{ind}&END" + (f" {t}" if rng.random() < 0.7 else ""))
-        if rng.random() < 0.2:
-            out.append("")
-    return out
-
-
-def _cp_addressable(nodes, path="", ok=True):
-    """[(target string, node dict, inside_pair)] of addressable sections."""
-    out = []
-    for nd in nodes:
-        here = path + nd["title"]
-        if not ok or nd["group"] == 3:
-            out += _cp_addressable(nd["kids"], here + "->", False)
-        elif nd["group"] == 2:
-            out.append((here + "->" + " ".join(nd["params"]), nd, True))
-            out += _cp_addressable(nd["kids"], here + "->", False)
-        else:
-            out.append((here, nd, False))
-            out += _cp_addressable(nd["kids"], here + "->", True)
-    return out
-
-
 def fam_cp2k(rec, rng, d, i):
     from infretis.classes.engines import cp2k as C
     from vf.oracles import templates19 as T
-    forest = _cp_tree(rng, 0, CP_TITLES)
-    text = "\n".join(["# generated template"] * (rng.random() < 0.3)
-                     + _cp_render(rng, forest)) + "\n"
-    addr = _cp_addressable(forest)
-    update, used, pair_updated = {}, [], False
-    for _ in range(int(rng.integers(1, 5))):
-        tgt, nd, pair = addr[int(rng.integers(0, len(addr)))]
-        new = rng.random() < 0.3 and not pair
-        if new:
-            fresh = [t for t in CP_TITLES + ["NEWSEC", "EXTRA"]
-                     if t not in [k["title"] for k in nd["kids"]]]
-            tgt = tgt + "->" + str(rng.choice(fresh))
-            if rng.random() < 0.25:
-                tgt += "->" + str(rng.choice(["INNER", "EACH"]))
-            nd = {"lines": [], "table": False}
-        elif rng.random() < 0.08:
-            tgt = str(rng.choice(["NEWROOT", "EXT_RESTART2"]))   # new root
-            new, nd = True, {"lines": [], "table": False}
-        if any(tgt == u or tgt.startswith(u + "->") or u.startswith(tgt + "->")
-               for u in used):
-            continue
-        used.append(tgt)
-        pair_updated |= pair
-        val = {}
-        if rng.random() < 0.7:
-            have = [] if nd["table"] else [ln.split()[0] for ln in nd["lines"]]
-            ks = [k for k in have if rng.random() < 0.5]
-            ks += [str(k) for k in rng.choice(
-                CP_KEYS, size=int(rng.integers(0, 3)), replace=False)
-                if k not in ks and (nd["table"] or k not in have or
-                                    rng.random() < 0.5)]
-            data = {}
-            for k in ks:
-                v = [int(rng.integers(1, 500)), 0.25, "xyz", "./p/conf.xyz",
-                     "1 2 3"][int(rng.integers(0, 5))]
-                data[k] = None if rng.random() < 0.04 else v
-            val["data"] = data
-        else:
-            val["data"] = [f"{rng.choice(CP_KEYS)} {rng.choice(CP_VALS)}"
-                           for _ in range(int(rng.integers(0, 4)))]
-            val["replace"] = True
-        if rng.random() < 0.2 and not pair:
-            val["settings"] = [str(rng.choice(CP_PARAMS))]
-        update[tgt] = val
-    remove = []
-    for _ in range(int(rng.integers(0, 3))):
-        tgt, _, in_pair = addr[int(rng.integers(0, len(addr)))]
-        if in_pair and pair_updated:
-            continue    # removing a sibling would change the other's address
-        if rng.random() < 0.3:
-            tgt = str(rng.choice(["EXT_RESTART", "MOTION->NOPE", "A->B->C"]))
-        if not any(tgt == u or tgt.startswith(u + "->") or
-                   u.startswith(tgt + "->") for u in used):
-            used.append(tgt)
-            remove.append(tgt)
+    case = cp2k_case(rng)
+    text, addr, update, remove = (case[k] for k in (
+        "text", "addr", "update", "remove"))
     src, out, out2 = (os.path.join(d, f"k{i}{s}.inp") for s in "abc")
     put(src, text)
     lit = {"template": text, "update": update, "remove": remove}
@@ -1053,6 +836,12 @@ def fam_cp2k(rec, rng, d, i):
             rec.viol("cp2k-none-value-written-as-text-None",
                      f"{path}: a keyword requested without value that is "
                      f"already present becomes '<KEY> None'", **wit)
+        elif kind == "extra" and any(
+                T._find(base, r)[0] is not None and
+                r.split("->")[0] == path.split("->")[0] and
+                g.title in r.split("->") for r in remove):
+            rec.viol("cp2k-removed-section-still-present",
+                     f"{path} was to be removed", **wit)
         else:
             who = "requested" if tgt else "unrequested"
             rec.viol(f"cp2k-{who}-section-{kind}",
@@ -1108,57 +897,12 @@ def fam_cp2k(rec, rng, d, i):
 
 # ------------------------------------------------ LAMMPS input variables
 
-LMP_VARS = ["timestep", "nsteps", "subcycles", "initconf", "name",
-            "lammpsdata", "temperature", "seed"]
-LMP_BODY = ["units real", "atom_style full", "dimension 3", "boundary p p p",
-            "pair_style lj/cut/coul/cut 12.0 12.0", "read_data ${lammpsdata}",
-            "read_dump ${initconf} 0 x y z vx vy vz box yes", "fix 1 all nve",
-            "fix 2 all langevin ${temperature} ${temperature} 500.0 ${seed}",
-            "thermo ${subcycles}", "timestep ${timestep}", "run ${nsteps}",
-            "dump 1 all custom ${subcycles} ${name}.lammpstrj id type x y z",
-            "# infretis_variables are replaced", "variable infretis_x equal 2",
-            "print my_infretis_name_is_kept", ""]
-
-
 def fam_lammpsin(rec, rng, d, i):
-    from pathlib import Path
-
     from infretis.classes.engines.lammps import write_for_run
     from vf.oracles import templates19 as T
-    mode = str(rng.choice(
-        ["once", "missing", "twice_one_line", "two_lines", "substring"],
-        p=[.5, .1, .1, .2, .1]))
-    settings = {
-        "infretis_timestep": float(rng.integers(1, 40)) / 10,
-        "infretis_nsteps": int(rng.integers(1, 10 ** 5)),
-        "infretis_subcycles": int(rng.integers(1, 50)),
-        "infretis_initconf": f"/scratch/w{rng.integers(0, 9)}/conf.lammpstrj",
-        "infretis_name": str(rng.choice(["trajB", "trajF", "genvel"])),
-        "infretis_lammpsdata": Path("/in/lammps.data"),
-        "infretis_temperature": float(rng.integers(100, 400)),
-        "infretis_seed": int(rng.integers(0, 10 ** 7))}
-    lines = []
-    for v in rng.permutation(LMP_VARS):
-        sep = str(rng.choice([" ", "\t", " \t", "    "]))
-        lines.append(f"variable{sep}{v} index infretis_{v}"
-                     + (" # set by infretis" if rng.random() < 0.2 else ""))
-    lines += [str(x) for x in rng.choice(LMP_BODY,
-                                         size=int(rng.integers(3, 12)))]
-    pick = "infretis_" + str(rng.choice(LMP_VARS))
-    where = int(rng.integers(0, len(lines) + 1))
-    if mode == "missing":
-        lines = [ln for ln in lines if pick not in ln.split()]
-    elif mode == "twice_one_line":
-        lines = [ln + f" # {pick}" if pick in ln.split() else ln
-                 for ln in lines]
-    elif mode == "two_lines":
-        lines.insert(where, str(rng.choice(
-            [f"# {pick} is replaced by infretis",
-             f"variable copy index {pick}"])))
-    elif mode == "substring":
-        lines.insert(where, str(rng.choice(
-            [f"print {pick}_old", f"variable tmp string ${{{pick}}}"])))
-    text = "\n".join(lines) + "\n"
+    case = lammps_case(rng)
+    text, lines, settings, mode, pick = (case[k] for k in (
+        "text", "lines", "settings", "mode", "pick"))
     src, out = os.path.join(d, f"i{i}.in"), os.path.join(d, f"i{i}.out")
     put(src, text)
     rec.sig("lammpsin", text + repr(sorted(settings.items())))
@@ -1222,7 +966,7 @@ def work(job, scratch):
             before = len(rec.v)
             try:
                 fn(rec, rng, scratch, i)
-            except Exception as exc:  # harness fault: never a verdict
+            except Exception:  # harness fault: never a verdict
                 import traceback
                 return {"n": rec.n, "inconclusive": [
                     f"harness error in family {fam} case {i}: "
